@@ -1,7 +1,7 @@
 (* C17 - concrete histories: the hypotheses of the round-trip theorem are satisfiable (nested prefixes,
    shared variables, every file-typed option kind), and witnesses for what does NOT survive:
    strings outside the ini-safe class (F-C17c), the stale key-value text of a sub-options copy
-   (F-C17h), options whose keys differ only in case.  strtod / "%.16g" are instantiated with toy
+   (F-C17h), options whose keys differ only in case; and the repaired F-C17k (an entry named like a heading).  strtod / "%.16g" are instantiated with toy
    functions here; the theorems themselves quantify over all of them. *)
 From Coq Require Import ZArith List Bool Lia.
 From ScV Require Import Base.CInt C17.OptionsModel C17.NumProofs C17.IniProofs C17.SaveProofs C17.LoadProofs C17.OptionsProofs.
@@ -148,11 +148,11 @@ Theorem key_case_collision_refuted :
                  (get_opts (snd (run toy_strtod toy_fmt empty_world (firstn 7 case_history))) 0) = false.
 Proof. vm_compute. repeat split; reflexivity. Qed.
 
-(* ---- F-C17k: an entry and a section heading in one dictionary slot ----
+(* ---- F-C17k (repaired cfc9e38): an entry and a section heading in one dictionary slot ----
    object 2 {-k/--kk} inside object 1 {-b/--b, a switch} under "B", object 1 inside object 0 under "pre":
    object 0 saves the entry b of [pre] and, after it, the heading [pre:B].  iniparser lower-cases both and
-   keeps headings and entries in one dictionary: the heading puts NULL into the slot "pre:b", sc_options_load
-   takes the slot for "a section heading of the same name" and leaves the switch of the fresh copy alone. *)
+   keeps headings and entries in one dictionary.  Before the repair the heading put NULL into the slot
+   "pre:b" and sc_options_load left the switch of the fresh copy alone; now the heading leaves the slot alone. *)
 Definition sec_decl (base vb : nat) : list op :=
   [ ONew (base + 2); OAdd (base + 2) TInt 107 (Some t_kk) (vb + 0) 0 0 (IInt 0);
     ONew (base + 1); OAdd (base + 1) TSwitch 98 (Some [98]) (vb + 1) 0 0 INone; OSub (base + 1) (base + 2) [66];
@@ -163,11 +163,27 @@ Definition sec_history : list op :=
   [ OParse 0 [GLong 0 None; GLong 1 (Some [55]); GEnd] 4 [t_prog; t_f; t_f; [55]];     (* p --pre:b --pre:B:kk 7 *)
     OSave 0 t_f; OLoad 4 t_f ].
 
-Theorem key_section_collision_refuted :
+(* the state is inside the guard of the round-trip theorem, and the model computes what the theorem promises *)
+Theorem key_section_collision_roundtrip :
   let r := run toy_strtod toy_fmt empty_world sec_history in
-  skipn 14 (fst r) = [4; 0; 0] /\                                                  (* parse, save, load all succeed *)
+  skipn 14 (fst r) = [4; 0; 0] /\                                                  (* parse, save, load succeed *)
   (st_int (w_store (snd r)) 1, st_int (w_store (snd r)) 0) = (1, 7) /\            (* saved: switch 1, kk 7 *)
-  (st_int (w_store (snd r)) 33, st_int (w_store (snd r)) 32) = (0, 7) /\          (* reloaded: switch 0, kk 7 *)
+  (st_int (w_store (snd r)) 33, st_int (w_store (snd r)) 32) = (1, 7) /\          (* reloaded: switch 1, kk 7 *)
   roundtrip_ok_b toy_strtod toy_fmt (snd (run toy_strtod toy_fmt empty_world (firstn 15 sec_history)))
-                 (get_opts (snd (run toy_strtod toy_fmt empty_world (firstn 15 sec_history))) 0) = false.
+                 (get_opts (snd (run toy_strtod toy_fmt empty_world (firstn 15 sec_history))) 0) = true.
 Proof. vm_compute. repeat split; reflexivity. Qed.
+
+(* the dictionary after "[pre]", "b = true", "[pre:B]": the value is still there *)
+Definition k_pre_b : str := t_pre ++ [58; 98].                      (* "pre:b" *)
+Definition k_true : str := [116; 114; 117; 101].
+Definition sec_assigns : list (str * option str) := [(t_pre, None); (k_pre_b, Some k_true); (k_pre_b, None)].
+
+Theorem heading_keeps_entry : dict_get (set_all sec_assigns []) k_pre_b = Some (Some k_true).
+Proof. reflexivity. Qed.
+
+(* regression guard: the reader as it was before cfc9e38 (every heading stored with dictionary_set (.., NULL)) loses it *)
+Definition set_all_old (l : list (str * option str)) (d : dict) : dict :=
+  fold_left (fun d kv => dict_set d (fst kv) (snd kv)) l d.
+
+Theorem heading_erases_entry_old_refuted : dict_get (set_all_old sec_assigns []) k_pre_b = Some None.
+Proof. reflexivity. Qed.
